@@ -78,7 +78,7 @@ def grid(c, rng, tier, _results=None):
     for i, (limit, ms) in enumerate(cases):
         tl += [f"=== c13_time_{i}", f"config steps=none clocks=0 time={limit}", "obj a0 atomic 0", "task 0 thread",
                "  spawn 1", f"  spin {ms}", "  aadd a0 1", "  join 1", "end", "task 1 thread", "  aadd a0 1", "end", "run random:5:1000"]
-    t = run_stream("c13_time", tl, "trace", jobs=4)
+    t = run_stream("c13_time", tl, "none", jobs=4)       # wall-clock dependent: there is nothing for the model to follow
     for i, (limit, ms) in enumerate(cases):
         nm = f"c13_time_{i}"
         ex = executions(t["impl"].get(nm, []))
